@@ -234,6 +234,75 @@ theorem C18_one_outcome_per_solve (o : Opts) (l : List Bool) (s : St) (r : Optio
   rw [hnew]
   exact ⟨hlen, hnone⟩
 
+/-- **Progress is monotone**: the thetas of the accepted solves strictly increase in time (the
+    list `accs`, newest first, is strictly decreasing) — after a failure the loop never falls
+    back behind a solution it has already accepted. -/
+theorem C18_accepted_strictly_increasing (o : Opts) (l : List Bool) (s : St) (r : Option Bool)
+    (hd : 0 < o.delta0) (h : optimize o l = some (s, r)) :
+    (accs s.solves).Pairwise (· > ·) := by
+  obtain ⟨h1, hrun⟩ := optimize_some h
+  obtain ⟨hlog, _⟩ := run_spec o l (init o) (inv_init o h1 hd)
+  rw [hrun] at hlog
+  exact LogOK.accs_decreasing hlog
+
+/-- **The linear model is left exactly once**: the `theta == 0.0` block (linear flags off,
+    `clear_transcription_cache()`) runs once if some accepted solve was at theta = 0 and never
+    otherwise; the flags are untouched exactly when it did not run. -/
+theorem C18_cache_cleared_at_most_once (o : Opts) (l : List Bool) (s : St) (r : Option Bool)
+    (hd : 0 < o.delta0) (h : optimize o l = some (s, r)) :
+    s.cleared ≤ 1 ∧ (s.cleared = 1 ↔ ∃ e ∈ s.solves, e.ok = true ∧ e.theta = 0) ∧
+      (s.linear = true ↔ s.cleared = 0) := by
+  obtain ⟨h1, hrun⟩ := optimize_some h
+  obtain ⟨hlog, _⟩ := run_spec o l (init o) (inv_init o h1 hd)
+  have hc := run_cleared o l (init o) ⟨rfl, by simp [init]⟩
+  rw [hrun] at hlog hc
+  simp only at hc
+  have hdec := LogOK.accs_decreasing hlog
+  -- accepted solves at theta = 0 are the zeros of `accs`, a strictly decreasing list
+  have hz : zeroAcc s.solves = ((accs s.solves).filter (fun a => decide (a = 0))).length := by
+    unfold zeroAcc accs
+    rw [List.filter_map, List.length_map, List.filter_filter]
+    congr 1
+    apply List.filter_congr
+    intro e _
+    simp [Bool.and_comm]
+  have hle : ∀ (xs : List Rat), xs.Pairwise (· > ·) → (xs.filter (fun a => decide (a = 0))).length ≤ 1 := by
+    intro xs
+    induction xs with
+    | nil => intro _; simp
+    | cons a t ih =>
+      intro hp
+      have hp' := List.pairwise_cons.1 hp
+      by_cases ha : a = 0
+      · have : t.filter (fun a => decide (a = 0)) = [] := by
+          rw [List.filter_eq_nil_iff]
+          intro b hb
+          have := hp'.1 b hb
+          simp only [decide_eq_true_eq]
+          intro hb0; rw [ha, hb0] at this; exact lt_irrefl _ this
+        simp [ha, this]
+      · simp only [List.filter_cons, ha, decide_false, Bool.false_eq_true, if_false]
+        exact ih hp'.2
+  refine ⟨by rw [hc.1, hz]; exact hle _ hdec, ?_, hc.2⟩
+  rw [hc.1]
+  constructor
+  · intro h1
+    have : 0 < zeroAcc s.solves := by omega
+    unfold zeroAcc at this
+    obtain ⟨e, he⟩ := List.exists_mem_of_length_pos this
+    rw [List.mem_filter] at he
+    simp only [Bool.and_eq_true, decide_eq_true_eq] at he
+    exact ⟨e, he.1, he.2⟩
+  · rintro ⟨e, he, hok, hth⟩
+    have hpos : 0 < zeroAcc s.solves := by
+      unfold zeroAcc
+      apply List.length_pos_of_mem (a := e)
+      rw [List.mem_filter]
+      simp [he, hok, hth]
+    have := hle _ hdec
+    rw [← hz] at this
+    omega
+
 /-- **Legacy overshoot witness (finding F3)**: the loop body before commit e603867 returns
     success after a single solve at theta = 1/2 for `theta_start = 1/2` (the increment 1 carries
     theta beyond 1 and the `while` test ends the loop with `success = True`). -/
